@@ -734,7 +734,7 @@ class SurfaceContainer(AbstractContainer):
                 tmp_elem = pool.map(partial(process_tessellate, delta=self.delta, update_delta=update_delta, **kwargs),
                                     self._elements)
             # The worker processes return copies of the surfaces. Copy the results into the surfaces (and their tessellation
-            # components and trims) which are in the container instead of replacing them; otherwise, the container would
+            # components) which are in the container instead of replacing them; otherwise, the container would
             # not contain the objects of the user any more.
             for elem, tmp in zip(self._elements, tmp_elem):
                 elem._delta = tmp._delta
@@ -744,8 +744,7 @@ class SurfaceContainer(AbstractContainer):
                     elem._tsl_args = tmp._tsl_args
                 if hasattr(tmp, '_tsl_vertices'):
                     elem._tsl_vertices = tmp._tsl_vertices
-                for trim, tmp_trim in zip(elem._trims, tmp._trims):
-                    trim.__dict__.update(tmp_trim.__dict__)
+                # (the trims of the surfaces stay as they are: tessellation does not change them)
                 new_elems.append(elem)
         else:
             for idx in range(len(self._elements)):
